@@ -268,6 +268,15 @@ def run(prop, tier="quick", seed=0, replay=None, only=None):
             path = write_replay(prop, f["obligation"], name, f["inputs"], f["why"], None)
             violations.append((f["obligation"], path, True))
 
+    # contracts whose STRUCTURAL loop invariants no longer fit the code: nothing proved under them is reported as a
+    # violation (the code may have been restructured correctly); the bounded layer decides such changes
+    unfit = set()
+    for ob in all_obs:
+        if ob.kind == "structural-invariant" and ob.verdict != "unsat":
+            unfit.add(ob.meta["contract"])
+    for cname in sorted(unfit):
+        undecided.append(f"{cname}: a structural loop invariant of this contract is not inductive for the current code "
+                         f"(restructured loop?) -- proof obligations of the contract are undecided, bounded layer decides")
     # symbolic failures
     by_name = {}
     for ob in all_obs:
@@ -279,6 +288,8 @@ def run(prop, tier="quick", seed=0, replay=None, only=None):
             broken.append(f"solver disagreement on {name}")
         if all(v == "unsat" for v in verdicts):
             proved += 1
+            continue
+        if obs[0].meta.get("contract") in unfit:
             continue
         if any(v == "sat" for v in verdicts):
             failed_names.append(name)
